@@ -32,10 +32,10 @@ CHECKS = {
  "C09": ("exploration", "exhaustive enumeration of all action sequences up to length 2/3 over 44 writers/declarations at 4 placements (top level, function, caller+callee, depth 3); differential against bash on declare -p dumps and the child environment after every step; temporary assignments on failing builtins",
          "Every writer path (assignment, +=, element assignment, for, read, printf -v, (( )), ${v:=}, getopts, mapfile, temporary assignments) is combined with every attribute declaration and scope placement.",
          "Trusted: bash as oracle.", "5/C09"),
- "C10": ("exploration", "exhaustive enumeration of redirection lists up to length 2/3 over 26 items x 7 command kinds (+noclobber) and of here-document bodies x delimiter forms x placements; differential against bash + restoration invariant",
+ "C10": ("exploration", "exhaustive enumeration of redirection lists up to length 2/3 over 26 items x 7 command kinds (+noclobber) and of here-document bodies x delimiter forms x placements, here-strings (17 words x 7 consumers) and here-document/here-string bodies of six sizes around the 64 KiB pipe capacity and the 1 MiB pipe size limit x 6 consumers; differential against bash + restoration invariant",
          "Inside-command probe (which descriptors are open/readable/writable), all file contents, and the descriptor table a child sees before and after each command.",
          "Trusted: bash as oracle; diagnostic wording is not compared.", "5/C10"),
- "C11": ("exploration", "exhaustive enumeration of pipeline shapes (stage kind x position) x payload sizes around the pipe capacity x stage delays x early-exit consumers on the real binary under a wall-clock cap; differential against bash",
+ "C11": ("exploration", "exhaustive enumeration of pipeline shapes (stage kind x position) x payload sizes around the pipe capacity x stage delays x early-exit consumers, and of command substitutions whose writer is the shell itself (10 bodies x 3 sizes), on the real binary under a wall-clock cap; differential against bash",
          "Every stage kind (external, builtin, function, group, subshell, while-read) in every position of 2/3/4-stage pipelines with payloads from 0 B to 1 MiB; output checksum, PIPESTATUS, $?; hangs confirmed by an isolated re-run.",
          "Trusted: bash as oracle; cap = max(2.5 s, 20 x bash's time), doubled on confirmation. Stage-start orders below the 0/100 ms delay granularity are not enumerated.", "5/C11"),
  "C12": ("exploration", "exhaustive enumeration of mutator sequences up to length 2/3 over 40 mutators inside 10 subshell contexts; self-differential on a full dump of the parent (serde Shell state + process-level state); 14 contexts incl. 3/4-stage pipelines x 5 parent option modes; exec-with-command mutators",
@@ -47,18 +47,18 @@ CHECKS = {
  "C14": ("exploration", "exhaustive enumeration of function bodies (grammar up to 3/4 nodes + 61 printer features in 11 enclosing constructs + pairs); fixed-point, AST-equality, behaviour, export/import and bash-acceptance oracles; 7 definition forms (body redirections, subshell body, function keyword)",
          "parse -> print -> parse -> print on the real parser/printer; serde ASTs compared with locations erased; the printed text is run, exported through BASH_FUNC_f%% and re-imported, and fed to bash.",
          "Trusted: serde form of the AST; bash.", "5/C14"),
- "C15": ("exploration", "exhaustive enumeration of programs x 5 delivery modes, of every line-prefix on standard input, and of (text, option-set) sequences against a pristine-process table (cache transparency); one program per construct that can hold a command open across a line end",
+ "C15": ("exploration", "exhaustive enumeration of programs x 5 delivery modes, of every line-prefix on standard input, and of (text, option-set) sequences against a pristine-process table (cache transparency); one program per construct that can hold a command open across a line end; $LINENO after each of 22 line-consuming pieces and after ordered pairs of them",
          "Same program through script file, -c, source, eval (public entry points) and stdin (real binary) against bash per mode and against each other; prefixes decide completeness behaviourally; long-lived workers vs one fresh process per (text, options).",
          "Trusted: bash per mode. LINENO is compared per mode only.", "5/C15"),
- "C16": ("exploration", "exhaustive enumeration of termination path x nesting context x trap life-cycle x handler kind x front-end; invariants read from stdout + bash; every subset of {DEBUG, ERR, EXIT} x handler bodies x programs x option sets",
+ "C16": ("exploration", "exhaustive enumeration of termination path x nesting context x trap life-cycle (17, incl. 11 spellings of the pseudo-signal when setting/replacing/removing) x handler kind x front-end; invariants read from stdout + bash; every subset of {DEBUG, ERR, EXIT} x handler bodies x programs x option sets",
          "EXIT marker count and position, $? seen by the handler, process status, on file/-c (public entry points) and stdin (real binary).",
          "Trusted: the invariant checker; bash.", "5/C16"),
- "C17": ("model_checking", "explicit-state breadth-first search over event histories executed on the real job table (gate-controlled job durations); invariants in every state; replay determinism re-checked; job kinds incl. error-ending jobs are part of the state key; awaited jobs released one at a time",
-         "All histories of depth <= 6/8 over launch (4 kinds), finish k, prompt poll, jobs, wait, wait %n, foreground marker with <= 3/4 jobs; states merged by canonical observation; distinct job numbers, wait-returns-after-jobs (happens-before through markers), markers exactly once.",
+ "C17": ("model_checking", "explicit-state breadth-first search over event histories executed on the real job table (gate-controlled job durations); invariants in every state; replay determinism re-checked; job kinds incl. error-ending jobs are part of the state key; awaited jobs released one at a time; compound jobs append to one shared file through a redirection set up at launch (file effects checked after every wait and at the end)",
+         "All histories of depth <= 6/7 over launch (2/4 kinds), finish k, prompt poll, jobs, wait, wait %n, foreground marker with <= 3 jobs; states merged by canonical observation; distinct job numbers, wait-returns-after-jobs (happens-before through markers), markers exactly once.",
          "Trusted: the gate builtin and the replay driver. Orders inside a single builtin are not explored.", "5/C17"),
- "C18": ("exploration", "exhaustive enumeration of command sequences up to length 2/3 over 54 leaves (28 fault leaves) repeated 2/50/500 times in one shell; resource-count invariants; each sequence also inside a function / sourced file / trap handler / loop-called function, with a stack probe per iteration",
+ "C18": ("exploration", "exhaustive enumeration of command sequences up to length 2/3 over 68 leaves (39 fault leaves) repeated 2/16 (quick) or 50 (thorough pairs) / 10 (thorough fault...fault triples) times in one shell; resource-count invariants; each sequence also inside a function / sourced file / trap handler / loop-called function, with a stack probe per iteration",
          "Descriptor count, zombie children, scope depth and call-stack depth (serde) after N iterations must equal those after one; the N-th iteration prints what the first did.",
-         "Trusted: /proc readings after a settle period.", "5/C18"),
+         "Trusted: /proc readings after a settle period (scripts with asynchronous parts: once stable for 15 ms; a leak is growth).", "5/C18"),
  "C19": ("exploration", "exhaustive enumeration of all lines over a 16-symbol alphabet up to length 5/6 x every cursor, plus construct corpus; invariant oracle on the real highlighter",
          "Every (line, cursor) pair within the bound is evaluated on the real highlight_command and the span invariant of the statement is checked literally.",
          "Trusted: the harness' invariant checker (30 lines). Not covered: longer lines, shells with user-defined aliases/functions.", "5/C19"),
